@@ -405,10 +405,10 @@ func c20Trans(env *c20Env) []c20TransRow {
 		// the second key holds a colon and a comma: on the command line it is quoted
 		"import-mapping": {map[string]interface{}{"a.yaml": "example.com/a", "https://x.org/specs:v1,b.yaml": "example.com/b"},
 			`a.yaml:example.com/a,"https://x.org/specs:v1,b.yaml":example.com/b`, `{"a.yaml":"example.com/a","https://x.org/specs:v1,b.yaml":"example.com/b"}`},
-		"response-type-suffix":  {"Resp", "Resp", `"Resp"`},
-		"compatibility":         {map[string]interface{}{"old-aliasing": true}, "", `true`},
-		"generate":              {[]interface{}{"types", "chi-server"}, "types,chi-server", `true`},
-		"initialism-overrides":  {nil, "", `true`},
+		"response-type-suffix": {"Resp", "Resp", `"Resp"`},
+		"compatibility":        {map[string]interface{}{"old-aliasing": true}, "", `true`},
+		"generate":             {[]interface{}{"types", "chi-server"}, "types,chi-server", `true`},
+		"initialism-overrides": {nil, "", `true`},
 	}
 	docKey := map[string]string{"package": "package", "generate": "generate.chi-server", "output": "output", "o": "output", "include-tags": "output-options.include-tags",
 		"exclude-tags": "output-options.exclude-tags", "include-operation-ids": "output-options.include-operation-ids", "exclude-operation-ids": "output-options.exclude-operation-ids",
